@@ -111,6 +111,24 @@ class Returned(Exception):
     pass
 
 
+_KEEP_NAMES = None
+
+
+def _is_free_helper(f) -> bool:
+    """A private function / method (leading underscore, not a dunder) that no property is anchored in."""
+    global _KEEP_NAMES
+    n = f.name
+    if not n.startswith("_") or (n.startswith("__") and n.endswith("__")):
+        return False
+    if _KEEP_NAMES is None:
+        try:
+            import check as _chk
+            _KEEP_NAMES = _chk.anchored_names()
+        except Exception:
+            _KEEP_NAMES = frozenset()
+    return n not in _KEEP_NAMES
+
+
 # --------------------------------------------------------------------------- domain base
 class Domain:
     """Override what you need.  Returning ``NotImplemented`` falls through to the engine."""
@@ -736,6 +754,16 @@ class Interp:
             if isinstance(expr, (ast.Constant, ast.Tuple, ast.List, ast.UnaryOp, ast.BinOp, ast.Dict)):
                 fake = _module_fn(m)
                 return self.eval(expr, {}, fake)
+            # private module constants built by a call of a library function on literals (`_UNIT_X = np.array([0.0, 0.0, 1.0])`,
+            # `_TABLE = str.maketrans("xz", "zx")`): evaluated like the same expression written in place
+            if cname.startswith("_") and isinstance(expr, ast.Call) and not any(isinstance(x, ast.Name) and x.id not in ("np", "numpy", "str", "dict", "tuple", "list",
+                                                                                                                      "frozenset", "set", "math")
+                                                                                for x in ast.walk(expr)):
+                fake = _module_fn(m)
+                try:
+                    return self.eval(expr, {}, fake)
+                except Exception:
+                    return TOP
             return TOP
         if isinstance(r, tuple) and r and r[0] == "classattr":
             _, ci, an = r
@@ -1199,7 +1227,11 @@ class Interp:
         for f in funcs:
             if f.is_overload or _is_abstract(f):
                 continue
-            if len(self.stack) >= self.depth + (1 if force_inline else 0) or f in self.stack:
+            # private helpers that no rule is anchored in are transparent: extracting a few lines into `_helper(...)` must not change what the rules see
+            # (bounded: at most 3 such frames on the stack)
+            free = sum(1 for g in self.stack[1:] if _is_free_helper(g))
+            bonus = min(free, 3) + (1 if (_is_free_helper(f) and free < 3) else 0)
+            if len(self.stack) >= self.depth + bonus + (1 if force_inline else 0) or f in self.stack:
                 outs.append(self.domain.top_call(self, node))
                 continue
             env = {}
